@@ -240,6 +240,60 @@ func vChooseCorpusCase(r *vx.Run, docs []vDoc, families []string) vCase {
 			}
 		}
 		return vCase{fmt.Sprintf("periodic:%s:%s every %d phase %d", d.Key, vEditNames[kind], p, ph), t.bytes(), d.Key}
+	case "deeplines":
+		// the document far down the input: behind N lines (blank, or one unrelated word each) for N
+		// just below / above 2^15 and 2^16 (line numbers beyond what a narrow integer holds)
+		nd := len(docs)
+		if nd > 6 {
+			nd = 6
+		}
+		d := docs[r.Choose(nd, "doc")]
+		var ns []int
+		for _, b := range []int{1 << 15, 1 << 16} {
+			for dd := -3; dd <= 2; dd++ {
+				ns = append(ns, b+dd)
+			}
+		}
+		n := ns[r.Choose(len(ns), "lines")]
+		kind := r.Choose(2, "line kind")
+		var sb strings.Builder
+		for i := 0; i < n; i++ {
+			if kind == 1 {
+				sb.WriteString(vOOV(i))
+			}
+			sb.WriteByte('\n')
+		}
+		sb.Write(d.Bytes)
+		sb.WriteString("\n" + vOOVBlock(1, 3, 5))
+		return vCase{fmt.Sprintf("deeplines:%s:%d %s lines first", d.Key, n, []string{"blank", "one-word"}[kind]), []byte(sb.String()), d.Key}
+	case "wordset":
+		// the document's DISTINCT words, each once, in order of first occurrence (or reversed): nearly
+		// all of its vocabulary in far fewer tokens than the document has
+		d := docs[r.Choose(len(docs), "doc")]
+		kind := r.Choose(3, "order")
+		seen := map[string]bool{}
+		var ws []string
+		for _, w := range strings.Fields(string(d.Bytes)) {
+			lw := strings.ToLower(w)
+			if !seen[lw] {
+				seen[lw] = true
+				ws = append(ws, w)
+			}
+		}
+		switch kind {
+		case 1:
+			for i, j := 0, len(ws)-1; i < j; i, j = i+1, j-1 {
+				ws[i], ws[j] = ws[j], ws[i]
+			}
+		case 2:
+			// the first sentence intact (shares q-grams with the document), then the rest of the vocabulary
+			first := strings.Fields(string(d.Bytes))
+			if len(first) > 12 {
+				first = first[:12]
+			}
+			ws = append(append([]string(nil), first...), ws...)
+		}
+		return vCase{fmt.Sprintf("wordset:%s:%s", d.Key, []string{"first occurrence order", "reversed", "first 12 words + vocabulary"}[kind]), []byte(strings.Join(ws, " ")), d.Key}
 	case "clusters":
 		// k edits of mixed kinds at positions from a fixed pseudo-random sequence (linear congruential,
 		// enumerated by its start value): unlike "scatter" the edits come in clumps and leave long
